@@ -292,6 +292,11 @@ func runC10(c *Ctx) {
 				if w == 3 && outcome != 0 {
 					continue
 				}
+				if w == 3 {
+					// three waiters (thorough tier): split over the workers, preemption bound 2
+					c.ExploreBig(waitScenario(waitCase{prop: "C10", kind: kind, limit: 1, waiters: w, outcome: outcome}), mc.Options{PreemptBound: 2})
+					continue
+				}
 				c.Explore(waitScenario(waitCase{prop: "C10", kind: kind, limit: 1, waiters: w, outcome: outcome}), opt)
 			}
 		}
